@@ -35,7 +35,7 @@ template <class T> static void line_line (Gen<T>& g, int it)
     if (fam == 5) { a0 = vmode (g, 1); b0 = vmode (g, 1); }
     if (fam == 1) { Vec3<T> x = iv (g); a0 = x - u * T (g.rng.range (-3, 3)); b0 = x - v * T (g.rng.range (-3, 3)); }
     if (fam == 2) { v = u * T (g.rng.below (2) ? 2 : -1); }
-    if (fam == 3) { int k = 1 << g.rng.range (6, 14); v = u * T (k) + nz (g, 2); }
+    if (fam == 3) { T k = (T) std::ldexp (1.0, (int) g.rng.range (6, sizeof (T) == 4 ? 14 : 34)); v = u * k + nz (g, 2); }
     if (fam == 4) { b0 = a0 + u * T (2); v = u * T (-3); }
     Line3<T> l1 (a0, a0 + u), l2 (b0, b0 + v);
     Vec3<T> p1 (7, 7, 7), p2 (7, 7, 7);
@@ -196,6 +196,11 @@ template <class V> static void valgo (Gen<typename V::BaseType>& g, int it)
     if (s.length2 () == 0) s[0] = 1;
     if (w.length2 () == 0) w[0] = 1;
     if (it % 7 == 0) w = s * T (2);
+    // very short (but normal) vectors, whose squared length underflows to zero: the projection is still defined
+    const T shrink = (T) std::ldexp (1.0, sizeof (T) == 4 ? -80 : -540);
+    if (it % 5 == 1) s *= shrink;
+    if (it % 5 == 2) w *= shrink;
+    if (it % 10 == 3) { s *= shrink; w *= shrink; }
     Rec r ("valgo"); r.str ("t", tg<T> ()); r.num ("n", V::dimensions ()); r.raw ("s", jv (s)); r.raw ("w", jv (w));
     r.raw ("proj", jv (project (s, w))); r.raw ("orth", jv (orthogonal (s, w))); r.raw ("refl", jv (reflect (s, w))); r.emit ();
 }
